@@ -326,3 +326,156 @@ Proof.
   - apply toric3d_vertex_face_commute; assumption.
   - rewrite overlap3_sym by (apply support_nodup; assumption). apply toric3d_vertex_face_commute; assumption.
 Qed.
+
+(** ** logical operators: commutation with the generators and X_i / Z_j pairing, for all sizes *)
+Ltac pteq := repeat (apply pair_equal_spec; split); lia.
+
+(** ** logical operators of Toric3DCode: three X lines and three Z sheets *)
+Definition lx1 (Lx : Z) : list pt3 := map (fun x => (x, 0, 0)) (odds Lx).
+Definition lx2 (Ly : Z) : list pt3 := map (fun y => (0, y, 0)) (odds Ly).
+Definition lx3 (Lz : Z) : list pt3 := map (fun z => (0, 0, z)) (odds Lz).
+Definition lz1 (Ly Lz : Z) : list pt3 := flat_map (fun y => map (fun z => (1, y, z)) (evens Lz)) (evens Ly).
+Definition lz2 (Lz Lx : Z) : list pt3 := flat_map (fun z => map (fun x => (x, 1, z)) (evens Lx)) (evens Lz).
+Definition lz3 (Lx Ly : Z) : list pt3 := flat_map (fun x => map (fun y => (x, y, 1)) (evens Ly)) (evens Lx).
+
+Definition on_odd (L a : Z) : bool := (0 <=? a) && (a <? 2 * L) && (a mod 2 =? 1).
+Definition on_even (L a : Z) : bool := (0 <=? a) && (a <? 2 * L) && (a mod 2 =? 0).
+Lemma in_odds_iff L a : In a (odds L) <-> on_odd L a = true.
+Proof. unfold odds, on_odd. rewrite in_range2. split; [intros [k [Hk ->]]; lia|intros H; exists (a / 2); lia]. Qed.
+Lemma in_evens_iff L a : In a (evens L) <-> on_even L a = true.
+Proof. unfold evens, on_even. rewrite in_range2. split; [intros [k [Hk ->]]; lia|intros H; exists (a / 2); lia]. Qed.
+
+Lemma mem3_lx1 Lx x y z : mem3 (x, y, z) (lx1 Lx) = (y =? 0) && (z =? 0) && on_odd Lx x.
+Proof.
+  apply Bool.eq_true_iff_eq. rewrite mem3_In. unfold lx1. rewrite in_map_iff, !andb_true_iff, <- in_odds_iff. split.
+  - intros [x' [E Hx]]. injection E as -> <- <-. split; [split; lia|assumption].
+  - intros [[Hy Hz] Hx]. exists x. split; [pteq|assumption].
+Qed.
+Lemma mem3_lx2 Ly x y z : mem3 (x, y, z) (lx2 Ly) = (x =? 0) && (z =? 0) && on_odd Ly y.
+Proof.
+  apply Bool.eq_true_iff_eq. rewrite mem3_In. unfold lx2. rewrite in_map_iff, !andb_true_iff, <- in_odds_iff. split.
+  - intros [y' [E Hy]]. injection E as <- -> <-. split; [split; lia|assumption].
+  - intros [[Hx Hz] Hy]. exists y. split; [pteq|assumption].
+Qed.
+Lemma mem3_lx3 Lz x y z : mem3 (x, y, z) (lx3 Lz) = (x =? 0) && (y =? 0) && on_odd Lz z.
+Proof.
+  apply Bool.eq_true_iff_eq. rewrite mem3_In. unfold lx3. rewrite in_map_iff, !andb_true_iff, <- in_odds_iff. split.
+  - intros [z' [E Hz]]. injection E as <- <- ->. split; [split; lia|assumption].
+  - intros [[Hx Hy] Hz]. exists z. split; [pteq|assumption].
+Qed.
+Lemma mem3_lz1 Ly Lz x y z : mem3 (x, y, z) (lz1 Ly Lz) = (x =? 1) && on_even Ly y && on_even Lz z.
+Proof.
+  apply Bool.eq_true_iff_eq. rewrite mem3_In. unfold lz1. rewrite in_flat_map, !andb_true_iff, <- !in_evens_iff. split.
+  - intros [y' [Hy H]]. rewrite in_map_iff in H. destruct H as [z' [E Hz]]. injection E as <- -> ->. split; [split; [lia|assumption]|assumption].
+  - intros [[Hx Hy] Hz]. exists y. split; [assumption|]. rewrite in_map_iff. exists z. split; [pteq|assumption].
+Qed.
+Lemma mem3_lz2 Lz Lx x y z : mem3 (x, y, z) (lz2 Lz Lx) = (y =? 1) && on_even Lz z && on_even Lx x.
+Proof.
+  apply Bool.eq_true_iff_eq. rewrite mem3_In. unfold lz2. rewrite in_flat_map, !andb_true_iff, <- !in_evens_iff. split.
+  - intros [z' [Hz H]]. rewrite in_map_iff in H. destruct H as [x' [E Hx]]. injection E as -> <- ->. split; [split; [lia|assumption]|assumption].
+  - intros [[Hy Hz] Hx]. exists z. split; [assumption|]. rewrite in_map_iff. exists x. split; [pteq|assumption].
+Qed.
+Lemma mem3_lz3 Lx Ly x y z : mem3 (x, y, z) (lz3 Lx Ly) = (z =? 1) && on_even Lx x && on_even Ly y.
+Proof.
+  apply Bool.eq_true_iff_eq. rewrite mem3_In. unfold lz3. rewrite in_flat_map, !andb_true_iff, <- !in_evens_iff. split.
+  - intros [x' [Hx H]]. rewrite in_map_iff in H. destruct H as [y' [E Hy]]. injection E as -> -> <-. split; [split; [lia|assumption]|assumption].
+  - intros [[Hz Hx] Hy]. exists x. split; [assumption|]. rewrite in_map_iff. exists y. split; [pteq|assumption].
+Qed.
+
+(** every term of the parity sum is decided by linear arithmetic once the position of the generator
+    relative to the line / sheet is fixed *)
+Ltac decide_xor :=
+  repeat match goal with
+         | |- context[xorb _ ?t] =>
+           lazymatch t with true => fail | false => fail
+           | _ => first [replace t with false by (unfold on_odd, on_even; lia) | replace t with true by (unfold on_odd, on_even; lia)] end
+         end.
+
+Ltac wrap1' W := let m := fresh "m" in
+  match type of W with _ <= ?t < _ /\ _ => set (m := t) in *; clearbody m; destruct W as [? ?] end.
+Ltac wraps3 Lx Ly Lz x y z HLx HLy HLz Rx Ry Rz :=
+  let W := fresh "W" in
+  pose proof (wrap_pred Lx x HLx Rx) as W; wrap1' W; pose proof (wrap_succ Lx x HLx Rx) as W; wrap1' W;
+  pose proof (wrap_pred Ly y HLy Ry) as W; wrap1' W; pose proof (wrap_succ Ly y HLy Ry) as W; wrap1' W;
+  pose proof (wrap_pred Lz z HLz Rz) as W; wrap1' W; pose proof (wrap_succ Lz z HLz Rz) as W; wrap1' W.
+Ltac split_pos a b :=
+  let E1 := fresh "E" in let E2 := fresh "E" in
+  destruct (a =? 0) eqn:E1; destruct (b =? 0) eqn:E2.
+Ltac finish_par := unfold overlap3; cbn [map fold_left]; rewrite ?mem3_lx1, ?mem3_lx2, ?mem3_lx3, ?mem3_lz1, ?mem3_lz2, ?mem3_lz3.
+
+(** *** X-type logicals against the Z-type (vertex) generators *)
+Theorem toric3d_logical_x_commute Lx Ly Lz v :
+  2 <= Lx -> 2 <= Ly -> 2 <= Lz -> In v (stab_coords Lx Ly Lz) -> is_vertex v = true ->
+  overlap3 (support Lx Ly Lz v) (lx1 Lx) = false /\ overlap3 (support Lx Ly Lz v) (lx2 Ly) = false /\
+  overlap3 (support Lx Ly Lz v) (lx3 Lz) = false.
+Proof.
+  intros HLx HLy HLz Hv Tv. destruct v as [[x y] z].
+  destruct (stab_cases _ _ _ _ _ _ Hv) as (Rx & Ry & Rz & P). unfold is_vertex in Tv.
+  assert (PV : x mod 2 = 0 /\ y mod 2 = 0 /\ z mod 2 = 0) by lia. destruct PV as (Px & Py & Pz). clear P Tv Hv.
+  rewrite (support_vertex Lx Ly Lz x y z) by assumption. rewrite (V_unfold Lx Ly Lz x y z) by lia.
+  wraps3 Lx Ly Lz x y z HLx HLy HLz Rx Ry Rz.
+  repeat split; finish_par.
+  - destruct (y =? 0) eqn:E1, (z =? 0) eqn:E2; decide_xor; reflexivity.
+  - destruct (x =? 0) eqn:E1, (z =? 0) eqn:E2; decide_xor; reflexivity.
+  - destruct (x =? 0) eqn:E1, (y =? 0) eqn:E2; decide_xor; reflexivity.
+Qed.
+
+(** *** Z-type logicals against the X-type (face) generators *)
+Theorem toric3d_logical_z_commute Lx Ly Lz f :
+  2 <= Lx -> 2 <= Ly -> 2 <= Lz -> In f (stab_coords Lx Ly Lz) -> is_vertex f = false ->
+  overlap3 (support Lx Ly Lz f) (lz1 Ly Lz) = false /\ overlap3 (support Lx Ly Lz f) (lz2 Lz Lx) = false /\
+  overlap3 (support Lx Ly Lz f) (lz3 Lx Ly) = false.
+Proof.
+  intros HLx HLy HLz Hf Tf. destruct f as [[x y] z].
+  destruct (stab_cases _ _ _ _ _ _ Hf) as (Rx & Ry & Rz & P). unfold is_vertex in Tf.
+  destruct P as [P|[(Px & Py & Pz)|[(Px & Py & Pz)|(Px & Py & Pz)]]]; [lia| | |]; clear Tf Hf.
+  - rewrite (support_face_xy Lx Ly Lz x y z) by assumption. wraps3 Lx Ly Lz x y z HLx HLy HLz Rx Ry Rz.
+    repeat split; finish_par.
+    + destruct (x =? 1) eqn:E1; decide_xor; reflexivity.
+    + destruct (y =? 1) eqn:E1; decide_xor; reflexivity.
+    + decide_xor; reflexivity.
+  - rewrite (support_face_yz Lx Ly Lz x y z) by assumption. wraps3 Lx Ly Lz x y z HLx HLy HLz Rx Ry Rz.
+    repeat split; finish_par.
+    + decide_xor; reflexivity.
+    + destruct (y =? 1) eqn:E1; decide_xor; reflexivity.
+    + destruct (z =? 1) eqn:E1; decide_xor; reflexivity.
+  - rewrite (support_face_xz Lx Ly Lz x y z) by assumption. wraps3 Lx Ly Lz x y z HLx HLy HLz Rx Ry Rz.
+    repeat split; finish_par.
+    + destruct (x =? 1) eqn:E1; decide_xor; reflexivity.
+    + decide_xor; reflexivity.
+    + destruct (z =? 1) eqn:E1; decide_xor; reflexivity.
+Qed.
+
+(** *** logical X_i and Z_j share one qubit when i = j and none otherwise: they anticommute exactly when i = j *)
+Lemma fold_xorb_all_false {A} (g : A -> bool) l acc : (forall a, In a l -> g a = false) -> fold_left xorb (map g l) acc = acc.
+Proof.
+  revert acc; induction l as [|a l IH]; intros acc H; cbn [map fold_left]; [reflexivity|].
+  rewrite (H a) by now left. rewrite xorb_false_r. apply IH. intros b Hb. apply H. now right.
+Qed.
+Lemma overlap3_map {A} (f : A -> pt3) l b : overlap3 (map f l) b = fold_left xorb (map (fun a => mem3 (f a) b) l) false.
+Proof. unfold overlap3. rewrite map_map. reflexivity. Qed.
+Lemma odds_cons L : 1 <= L -> odds L = 1 :: range2 3 (Z.to_nat (L - 1)).
+Proof. intros H. unfold odds. replace (Z.to_nat L) with (S (Z.to_nat (L - 1))) by lia. reflexivity. Qed.
+Lemma fold_first_only L (g : Z -> bool) : 1 <= L -> g 1 = true -> (forall a, 3 <= a -> g a = false) ->
+  fold_left xorb (map g (odds L)) false = true.
+Proof.
+  intros HL H1 Hr. rewrite odds_cons by assumption. cbn [map fold_left]. rewrite H1. cbn [xorb].
+  apply fold_xorb_all_false. intros a Ha. apply Hr. apply in_range2 in Ha. destruct Ha as [k [Hk ->]]. lia.
+Qed.
+
+Theorem toric3d_logical_pairing Lx Ly Lz : 1 <= Lx -> 1 <= Ly -> 1 <= Lz ->
+  overlap3 (lx1 Lx) (lz1 Ly Lz) = true /\ overlap3 (lx1 Lx) (lz2 Lz Lx) = false /\ overlap3 (lx1 Lx) (lz3 Lx Ly) = false /\
+  overlap3 (lx2 Ly) (lz1 Ly Lz) = false /\ overlap3 (lx2 Ly) (lz2 Lz Lx) = true /\ overlap3 (lx2 Ly) (lz3 Lx Ly) = false /\
+  overlap3 (lx3 Lz) (lz1 Ly Lz) = false /\ overlap3 (lx3 Lz) (lz2 Lz Lx) = false /\ overlap3 (lx3 Lz) (lz3 Lx Ly) = true.
+Proof.
+  intros HLx HLy HLz. unfold lx1, lx2, lx3. rewrite !overlap3_map.
+  repeat match goal with |- _ /\ _ => split end;
+    first [ apply fold_first_only; [assumption| |intros a Ha]; rewrite ?mem3_lz1, ?mem3_lz2, ?mem3_lz3; unfold on_even; lia
+          | apply fold_xorb_all_false; intros a Ha; rewrite ?mem3_lz1, ?mem3_lz2, ?mem3_lz3; unfold on_even; lia ].
+Qed.
+
+(** X-type logicals commute among themselves and Z-type among themselves trivially (same Pauli type). *)
+
+Definition logicals_match (Lx Ly Lz : Z) (x1 x2 x3 z1 z2 z3 : list pt3) : bool :=
+  pt3l_eqb (lx1 Lx) x1 && pt3l_eqb (lx2 Ly) x2 && pt3l_eqb (lx3 Lz) x3
+  && pt3l_eqb (lz1 Ly Lz) z1 && pt3l_eqb (lz2 Lz Lx) z2 && pt3l_eqb (lz3 Lx Ly) z3.
